@@ -149,18 +149,67 @@ Definition rlist (strict : bool) (c : tctx) (s : shard) (lsimp : option bool) (s
          lr_nrepos := N.of_nat (length repos + length rmap) |}
   end.
 
-(** -- aggregation over shards (collectSender / shardedSearcher.List) ---------------------------- *)
-(** maps.Copy(aggregate.RepoURLs, r.RepoURLs): later shards override *)
+(** -- aggregation over shards (search/shards.go sendByRepository + search/aggregate.go collectSender) -- *)
+Fixpoint lookup (k : N) (m : list (N * N)) : option N :=
+  match m with
+  | [] => None
+  | (k', v) :: r => if N.eqb k k' then Some v else lookup k r
+  end.
+(** Go's m[k] on a missing key yields "", which the harness encodes as 0 *)
+Definition lookup0 (k : N) (m : list (N * N)) : N := match lookup k m with Some v => v | None => 0%N end.
+Definition has_key (k : N) (m : list (N * N)) : bool := match lookup k m with Some _ => true | None => false end.
+
+(** consecutive file matches with the same RepositoryID form one event *)
+Fixpoint group_by_id (fs : list fmatch) : list (list fmatch) :=
+  match fs with
+  | [] => []
+  | f :: r =>
+      match group_by_id r with
+      | (f' :: g) :: gs => if N.eqb (fm_repoid f) (fm_repoid f') then (f :: f' :: g) :: gs else [f] :: (f' :: g) :: gs
+      | other => [f] :: other
+      end
+  end.
+
+(** the maps of one per-repository event: the repository's own entry plus the entries of the
+    sub-repositories its files live in (when the shard result has them) *)
+Definition event_map (full : list (N * N)) (name : N) (g : list fmatch) : list (N * N) :=
+  fold_left (fun acc f =>
+               let n := fm_subname f in
+               if N.eqb n 0 then acc
+               else if has_key n acc then acc
+               else match lookup n full with Some u => map_set n u acc | None => acc end)
+            g [(name, lookup0 name full)].
+
+Definition send_by_repo (r : sresult) : list sresult :=
+  match sr_files r with
+  | [] => [r]
+  | f0 :: _ =>
+      if Nat.leb (length (sr_urls r)) 1 then [r]
+      else map (fun g => match g with
+                         | [] => empty_sresult
+                         | f :: _ => {| sr_files := g; sr_urls := event_map (sr_urls r) (fm_repo f) g;
+                                        sr_frags := event_map (sr_frags r) (fm_repo f) g |}
+                         end) (group_by_id (sr_files r))
+  end.
+
+(** maps.Copy(aggregate.RepoURLs, r.RepoURLs): later events override *)
 Definition merge_maps (a b : list (N * N)) : list (N * N) :=
   fold_left (fun acc kv => map_set (fst kv) (snd kv) acc) b a.
 
+(** collectSender.Send: files are appended; the maps are copied only from events that carry files *)
+Definition collect (acc r : sresult) : sresult :=
+  match sr_files r with
+  | [] => acc
+  | _ => {| sr_files := sr_files acc ++ sr_files r;
+            sr_urls := merge_maps (sr_urls acc) (sr_urls r);
+            sr_frags := merge_maps (sr_frags acc) (sr_frags r) |}
+  end.
+
 Definition agg_search (rs : list sresult) : sresult :=
-  fold_left (fun acc r => {| sr_files := sr_files acc ++ sr_files r;
-                             sr_urls := merge_maps (sr_urls acc) (sr_urls r);
-                             sr_frags := merge_maps (sr_frags acc) (sr_frags r) |}) rs empty_sresult.
+  fold_left collect (flat_map send_by_repo rs) empty_sresult.
 
 (** a sharded search: the searcher picks any sub-list of shards and may hand each its own (rewritten)
-    query; [qs] gives, per shard, the (scan, m) abstraction of the query that shard receives *)
+    query; [ss] gives, per shard, the (scan, m) abstraction of the query that shard receives *)
 Definition sharded_search (strict : bool) (c : tctx)
            (ss : list (shard * (bool * (repo -> doc -> bool)))) : sresult :=
   agg_search (map (fun sq => search strict c (fst sq) (fst (snd sq)) false (snd (snd sq))) ss).
